@@ -481,7 +481,11 @@ RunLoop:
 				}
 				setReg(regs, cells, startReg, nextStart)
 			} else {
-				// Prepare for loop
+				// Prepare for loop.  The loop is done with integers only if the
+				// initial value and the step are integers: a numeric string is
+				// converted to a number but makes it a float loop.
+				_, startIsString := start.TryString()
+				_, stepIsString := step.TryString()
 				start, tstart := ToNumberValue(start)
 				stop, tstop := ToNumberValue(stop)
 				step, tstep := ToNumberValue(step)
@@ -509,7 +513,7 @@ RunLoop:
 				// done is set if the loop is already finished, in which case
 				// startReg is set to nil.
 				var done bool
-				if tstart == IsInt && tstep == IsInt {
+				if tstart == IsInt && tstep == IsInt && !startIsString && !stepIsString {
 					// Integer loop: the limit is clipped to an integer.
 					var limit int64
 					limit, done = forLimit(stop, step.AsInt())
